@@ -191,7 +191,26 @@ impl Archive {
     /// Return the last completely-written band id, if any.
     pub async fn last_complete_band(&self) -> Result<Option<Band>> {
         for band_id in self.list_band_ids().await?.into_iter().rev() {
-            let b = Band::open(self, band_id).await?;
+            let b = match Band::open(self, band_id).await {
+                Ok(b) => b,
+                // A backup killed while it was creating its band leaves a directory with
+                // no head: that is not a version, so look further back.
+                Err(Error::BandHeadMissing { .. }) => continue,
+                Err(err) => {
+                    // Likewise if it was killed inside the write of the head, which
+                    // leaves a zero-length file.
+                    let head_path = format!("{}/{}", band_id, crate::BAND_HEAD_FILENAME);
+                    if self
+                        .transport
+                        .metadata(&head_path)
+                        .await
+                        .is_ok_and(|m| m.len == 0)
+                    {
+                        continue;
+                    }
+                    return Err(err);
+                }
+            };
             if b.is_closed().await? {
                 return Ok(Some(b));
             }
